@@ -250,4 +250,17 @@ def decU8 : Dec
 def encVoid (_ : Nat) : Bytes := []
 def decVoid : Dec := fun _ => some (0, 0)
 
+/-! ### table codecs (value types of the correspondence run that are not numbers)
+
+The harness uses maps whose values are pointers to structs, slices and Go maps; it names ten values of
+each type `0..9` and sends their serix encodings.  The model treats such a value as its index and the
+codec as the table (the encodings are length-prefixed / fixed-size, hence prefix-free). -/
+
+def encTable (tbl : List Bytes) (v : Nat) : Bytes := tbl.getD v []
+
+def decTable (tbl : List Bytes) : Dec := fun b =>
+  (List.range tbl.length).findSome? (fun i =>
+    let e := tbl.getD i []
+    if e.isPrefixOf b then some (i, e.length) else none)
+
 end Hive.OMap
